@@ -252,8 +252,15 @@ def r18_2(ctx, rc):
         # the last resort of the chain rejects
         key = name + ' final else rejects'
         from ..astpaths import cond_paths
+        def established(t, pol):
+            # ``x is not None`` evaluated False establishes ``x is None``
+            if isinstance(t, ast.Compare) and len(t.ops) == 1 and isinstance(
+                    t.ops[0], (ast.IsNot, ast.NotEq, ast.NotIn)):
+                return not pol
+            return pol
         finals = [st for conds, st in cond_paths(F.node.body)
-                  if len(conds) >= 2 and all(not pol for _, pol in conds)]
+                  if len(conds) >= 2 and not any(
+                      established(t, pol) for t, pol in conds)]
         if finals and all(isinstance(x, ast.Raise) for x in finals):
             rc.ok({'final': 'raise'}, key=key)
         else:
